@@ -144,3 +144,119 @@ Definition p_C12 : pstep := fun c s o ob =>
        | _, _ => true
        end
   end.
+
+(* ---------- C02: GetNext = earliest eligible task (time, priority desc, creation time, FIFO) ---------- *)
+Definition next_ok (c : cfg) (s : repo) (n : option string) : bool :=
+  match n with
+  | None => negb (existsb is_sched s)
+  | Some id =>
+    match lookup id s with
+    | None => false
+    | Some g =>
+      is_min3 s g
+      && (if c_tie_free c then true
+          else match get_next s with Some t => String.eqb id (t_id t) | None => false end)
+    end
+  end.
+Definition p_C02 : pstep := fun c s o ob =>
+  let s' := obs_next s o ob in
+  next_ok c s' (o_next ob)
+  && match o, o_res ob with
+     | ONext _, RTask g => otask_eqb (lookup (t_id g) s) (Some g) && next_ok c s (Some (t_id g))
+     | ONext ctx, RErr e => (err_eqb e EExhausted && negb (existsb is_sched s)) || (err_eqb e ECtx && ctx)
+     | ONext _, _ => false
+     | _, _ => true
+     end.
+
+(* ---------- C11: Find = matching tasks, oldest first, contiguous window ---------- *)
+(* the documented rule: case-sensitive matchers, whatever the implementation's quirks *)
+Definition doc_cfg (c : cfg) : cfg :=
+  mkCfg (c_add_valid_first c) (c_upd_valid_first c) (c_find_ctx c) (c_next_ctx c) (c_find_by_created c)
+        (c_tie_free c) true false.
+Definition p_C11 : pstep := fun c s o ob =>
+  match o, o_res ob with
+  | OFind ctx q off lim, RTasks g =>
+    let c := doc_cfg c in
+    let e := find c s q off lim in
+    if c_find_by_created c then find_accept_ent c s q e g else tasks_eqb e g
+  | OFind ctx _ _ _, RErr e => err_eqb e ECtx && ctx
+  | OFind _ _ _ _, _ => false
+  | _, _ => true
+  end.
+
+(* ---------- C13: recovery operations (sequential part) ---------- *)
+Definition p_C13 : pstep := fun c s o ob =>
+  let s' := obs_next s o ob in
+  match o with
+  | ORevert => res_eqb (o_res ob) ROk && tasks_eqb s' (map undispatch s)
+  | OCancelDispatched now => res_eqb (o_res ob) ROk && tasks_eqb s' (map (cancel_if_dispatched now) s)
+  | ODeleteEnded => res_eqb (o_res ob) ROk && tasks_eqb s' (filter (fun t => negb (is_ended t)) s)
+  | _ => true
+  end.
+Definition p_and (p q : pstep) : pstep := fun c s o ob => p c s o ob && q c s o ob.
+
+(* ---------- C19: nothing the client scribbled over ever shows up in the store ---------- *)
+Definition marked_map (m : smap) : bool :=
+  existsb (fun kv => String.eqb (fst kv) "scribble" || String.eqb (snd kv) "SCRIBBLED") m.
+Definition marked_task (t : task) : bool := marked_map (t_param t) || marked_map (t_meta t).
+Definition p_C19 : pstep := fun c s o ob =>
+  negb (existsb marked_task (res_tasks (o_res ob)))
+  && forallb (fun p => match snd p with Some t => negb (marked_task t) | None => true end) (o_diff ob).
+
+(* ---------- C14: lock-step of the original (A) and the restored (B) repository ---------- *)
+Definition obs_eqb (a b : obs) : bool :=
+  res_eqb (o_res a) (o_res b)
+  && (fix go (x y : list (string * option task)) : bool :=
+        match x, y with
+        | [], [] => true
+        | (i, t) :: r, (j, u) :: r' => String.eqb i j && otask_eqb t u && go r r'
+        | _, _ => false
+        end) (o_diff a) (o_diff b)
+  && match o_next a, o_next b with
+     | Some i, Some j => String.eqb i j
+     | None, None => true
+     | _, _ => false
+     end.
+Fixpoint lockstep (a b : hist) (i : nat) : option nat :=
+  match a, b with
+  | [], [] => None
+  | (_, x) :: r, (_, y) :: r' => if obs_eqb x y then lockstep r r' (S i) else Some i
+  | _, _ => Some i
+  end.
+Definition p_load : pstep := fun c s o ob =>
+  match o with
+  | OLoad kv =>
+    if forallb is_valid kv then res_eqb (o_res ob) ROk
+    else res_eqb (o_res ob) (RErr EInvalidTask) && match o_diff ob with [] => true | _ => false end
+  | _ => true
+  end.
+Record snapcase := mkSnap { sn_pre : hist; sn_a : hist; sn_b : hist }.
+Definition snap_mismatch (c : cfg) (x : snapcase) : option nat :=
+  match check_hist c [] (sn_pre x ++ sn_a x) 0 with
+  | Some i => Some i
+  | None => match check_hist c [] (sn_pre x ++ sn_b x) 0 with
+            | Some i => Some (1000 + i)%nat
+            | None => None
+            end
+  end.
+Fixpoint snap_mismatches_from (c : cfg) (l : list snapcase) (k : nat) : list (nat * nat) :=
+  match l with
+  | [] => []
+  | x :: r => match snap_mismatch c x with
+              | Some i => (k, i) :: snap_mismatches_from c r (S k)
+              | None => snap_mismatches_from c r (S k)
+              end
+  end.
+Fixpoint snap_violations_from (l : list snapcase) (k : nat) : list (nat * nat) :=
+  match l with
+  | [] => []
+  | x :: r => match lockstep (sn_a x) (sn_b x) 0 with
+              | Some i => (k, i) :: snap_violations_from r (S k)
+              | None =>
+                (* a snapshot with an invalid task is rejected and leaves the repository as it was *)
+                match viol_hist p_load cfg_inmem [] (sn_pre x) 0 with
+                | Some i => (k, (2000 + i)%nat) :: snap_violations_from r (S k)
+                | None => snap_violations_from r (S k)
+                end
+              end
+  end.
